@@ -190,9 +190,10 @@ Proof.
                                   Nat.eqb (length (blk (snd x) (t, cBuf))) (length (blk (snd x) (e, cBuf))))).
     + lok.
     + apply local_ok_id.
-  - apply local_ok_seqL. apply Forall_flat_map_ok. intros o. constructor; [|constructor; [|constructor]].
+  - apply local_ok_seqL. apply Forall_flat_map_ok. intros o. constructor; [|constructor; [|constructor; [|constructor]]].
     + apply (local_ok_dep (fun y => realloc (o, cHenc) (map CopyOf (blk (snd y) (p, cEnc))))). intros; apply local_ok_realloc.
     + apply local_ok_realloc.
+    + apply local_ok_wfresh.
   - apply (local_ok_dep (fun y => realloc kExt (map (fun _ => FreshV) (blk (snd y) kExt)))). intros; apply local_ok_realloc.
 Qed.
 
@@ -225,7 +226,13 @@ Lemma local_ok_score : local_ok score_agent.
 Proof. apply local_ok_wfresh. Qed.
 
 Lemma local_ok_act : local_ok act_agent.
-Proof. apply local_ok_wfresh. Qed.
+Proof.
+  unfold act_agent.
+  apply (local_ok_dep (fun y => seqL (map (fun n => wfresh (n, cBuf)) (net_names (snd y)) ++ [wfresh kExt]))).
+  intros y. apply local_ok_seqL. apply Forall_app. split.
+  - apply Forall_map_ok. intros n. apply local_ok_wfresh.
+  - lok.
+Qed.
 
 Lemma local_ok_rebuild_eval sh : local_ok (rebuild_eval sh).
 Proof. unfold rebuild_eval. lok. Qed.
